@@ -132,6 +132,15 @@ fn all_seqs(max_len: usize) -> Vec<Vec<Act>> {
     out
 }
 
+const PROD_DIRS: [&str; 5] = ["axelar-gateway", "axelar-gas-service", "axelar-operators", "interchain-token-service", "interchain-token"];
+
+/// well-typed migration data for a shipped contract: `()` at the pinned commit; whatever type the tree under test
+/// declares (`#[migratable(with_type = T)]`) otherwise
+fn prod_migration_data(env: &Env, k: u8) -> Val {
+    let ty = crate::sweep::migration_type(PROD_DIRS[k as usize % 5]);
+    hinted_value(env, &ty, &MigHints::default()).unwrap_or_else(|| ().into_val(env))
+}
+
 fn migrating_flag(env: &Env, target: &Address) -> bool {
     let key: SVec<Symbol> = SVec::from_array(env, [Symbol::new(env, "Interfaces_Migrating")]);
     env.as_contract(target, || env.storage().instance().has(&key))
@@ -273,7 +282,7 @@ impl Property for C15 {
                         Who::Nobody => None,
                     };
                     let next_owner = if owner == w.alt[0] { w.alt[1].clone() } else { w.alt[0].clone() };
-                    let margs: SVec<Val> = SVec::from_array(env, [().into_val(env)]);
+                    let margs: SVec<Val> = SVec::from_array(env, [if *target % 6 < 5 { prod_migration_data(env, *target % 6) } else { ().into_val(env) }]);
                     let uargs: SVec<Val> = SVec::from_array(env, [hash.clone().into_val(env)]);
                     let targs: SVec<Val> = SVec::from_array(env, [next_owner.clone().into_val(env)]);
                     let entries = match &signer {
@@ -428,7 +437,7 @@ impl Property for C15 {
                     (UT::Dummy, _) => SVec::from_array(env, [sstr(env, "data").into_val(env)]),
                     (UT::Prod(_), Data::IllTyped) => SVec::from_array(env, [5u32.into_val(env)]),
                     (UT::Prod(_), Data::TooManyArgs) => SVec::from_array(env, [().into_val(env), ().into_val(env)]),
-                    (UT::Prod(_), _) => SVec::from_array(env, [().into_val(env)]),
+                    (UT::Prod(k), _) => SVec::from_array(env, [prod_migration_data(env, *k)]),
                 };
                 // what would happen with full authority
                 let version_after_if_migrated: Option<&str> = match (target, data) {
